@@ -6,6 +6,7 @@ mod gen;
 mod refasm;
 mod refsim;
 mod simutil;
+mod asmutil;
 mod props;
 
 use json::Json;
